@@ -23,7 +23,7 @@ MIX_PRIORS = True  # workers are NOT dealt seeds by prior: process-global state 
 def generate(seed, tier="quick"):
     rnd = tape.sub(seed, PROPERTY, "gen")
     max_n = 80 if tier == "quick" else 200
-    cfg = common.base_config(seed, PROPERTY, rnd, n_libs=2, n_data=1)
+    cfg = common.base_config(seed, PROPERTY, rnd, tier=tier, n_libs=2, n_data=1)
     for lib in cfg["libraries"]:
         lib["n"] = rnd.choice([2, 3, 5, 8, 13, 21, 34, rnd.randint(2, max_n)])
         n = lib["n"]
